@@ -71,7 +71,7 @@ def run(shard):
     import corpus
     import jsonschema_mini
     cdm = H.import_repo()
-    from code_data import _json_data
+    _json_data = H.lib("_json_data")
     CodeData = cdm.CodeData
     schema = cdm.JSON_SCHEMA
     state = {"case": None, "route": None}
@@ -154,6 +154,17 @@ def run(shard):
             return
         if not eq:
             viol("loaded data differs", "from_json_data(loads(dumps(to_json_data(x)))) != x")
+        # the same document after a trip through another serializer (member order, white space) must load to the same data
+        for label, doc3 in H.json_transits(doc, text):
+            H.count("checks:C07.transit")
+            if doc3 != doc:
+                continue      # (never: these transformations keep the document equal as a Python value)
+            try:
+                y3 = CodeData.from_json_data(doc3)
+                if not (y3 == x):
+                    viol("loaded data differs after a transit of the document", "%s: from_json_data of the same document with %s != x" % (label, label))
+            except Exception as e:
+                viol("from_json_data raises after a transit of the document", "%s: %s: %s" % (label, type(e).__name__, H.short(e, 300)))
         try:
             cx = x.to_code()
         except Exception:
